@@ -387,21 +387,29 @@ func normalizeSetField(
 	p := parsePathWithOpts(name, opts)
 	old, err := p.GetValue(cfg, opts)
 	if err != nil {
-		if err.Reason() != ErrMissing {
+		switch {
+		case err.Reason() == ErrMissing:
+		case throughPrimitive(err):
+			return conflictWithPrimitive(cfg, name, val)
+		default:
 			return err
 		}
 		old = nil
 	}
 
 	switch {
-	case !isNil(old) && isNil(val):
-		return nil
-	case isNil(old):
-		return p.SetValue(cfg, opts, val)
 	case isSub(old) && isSub(val):
 		cfgOld, _ := old.toConfig(opts)
 		cfgVal, _ := val.toConfig(opts)
 		return normalizeUnite(opts, cfgOld, cfgVal)
+	case !isNilOnly(old) && isNilOnly(val):
+		return nil
+	case isNilOnly(old):
+		err := p.SetValue(cfg, opts, val)
+		if err != nil && throughPrimitive(err) {
+			return conflictWithPrimitive(cfg, name, val)
+		}
+		return err
 	default:
 		return raiseDuplicateKey(cfg, name)
 	}
@@ -412,19 +420,63 @@ func normalizeSetField(
 // contrast to a merge no setting may be defined by both of them and the merge
 // options in use do not apply. This makes the result independent of the order
 // in which the input's keys are visited.
+// throughPrimitive: the path of a key runs through a setting to which the
+// same input gives a primitive value.
+func throughPrimitive(err Error) bool {
+	switch err.Reason() {
+	case ErrExpectedObject, ErrTypeNoArray, ErrTypeMismatch:
+		return true
+	}
+	return false
+}
+
+// conflictWithPrimitive: whichever of the two keys is met first, the setting
+// is defined twice - unless the value below the primitive defines nothing.
+func conflictWithPrimitive(cfg *Config, name string, val value) Error {
+	if isNilOnly(val) {
+		return nil
+	}
+	return raiseDuplicateKey(cfg, name)
+}
+
+// isNilOnly reports whether a value defines nothing: a nil, or an object or
+// list holding nothing but such values (what "a.0: null" leaves behind). A
+// nil setting never conflicts with another definition of the same setting;
+// that has to hold in whichever order the two are met.
+func isNilOnly(v value) bool {
+	if isNil(v) {
+		return true
+	}
+	sub, ok := v.(cfgSub)
+	if !ok {
+		return false
+	}
+	for _, e := range sub.c.fields.dict() {
+		if !isNilOnly(e) {
+			return false
+		}
+	}
+	for _, e := range sub.c.fields.array() {
+		if !isNilOnly(e) {
+			return false
+		}
+	}
+	return true
+}
+
 func normalizeUnite(opts *options, to, from *Config) Error {
 	parent := cfgSub{to}
 
 	unite := func(old, v value, ctx context) (value, Error) {
 		switch {
-		case !isNil(old) && isNil(v):
-			return nil, nil
-		case isNil(old):
-			return v.cpy(ctx), nil
 		case isSub(old) && isSub(v):
 			cfgOld, _ := old.toConfig(opts)
 			cfgVal, _ := v.toConfig(opts)
 			return nil, normalizeUnite(opts, cfgOld, cfgVal)
+		case !isNilOnly(old) && isNilOnly(v):
+			return nil, nil
+		case isNilOnly(old):
+			return v.cpy(ctx), nil
 		default:
 			return nil, raiseDuplicateKey(to, ctx.field)
 		}
